@@ -18,10 +18,10 @@ LEVEL_TEXT = ('for every combination the path printed by trash-list (also in its
               'also equal the spec reading (first Path / first DeletionDate line, relative to $topdir)')
 LEVEL_NOTE = 'trusted: R1; the base directory of a relative Path inside the HOME trash is not fixed by the spec -- only agreement between the commands is demanded there'
 RULE = ('Path value {absolute, relative, relative with .., %41, %2F, %ZZ, lone %, empty, inner+trailing spaces, leading space, CRLF, non-ASCII escaped, an escape that is not valid UTF-8 (%E9)} x structure {plain, duplicate Path, '
-        'duplicate DeletionDate, extra keys, extra section, missing header, lowercase key, "Path =", date before path, no final newline, malformed first DeletionDate followed by a valid one} x trash dir {home on /, home on own volume, '
+        'duplicate DeletionDate, extra keys, extra section, missing header, lowercase key, "Path =", date before path, no final newline, malformed first DeletionDate followed by a valid one, no DeletionDate at all, an empty one} x trash dir {home on /, home on own volume, '
         '.Trash/uid, .Trash-uid, --trash-dir, --trash-dir through a symlink that crosses a volume boundary, two --trash-dir options (root volume first)}; a well-formed companion entry is read before the entry under test; non-trivial = at least one command produced a reading; distinct = (path class, structure, dir, agreement class)')
 PATHS = ['abs', 'rel', 'rel-dotdot', 'pct41', 'pct2F', 'pctZZ', 'pct-lone', 'empty', 'spaces', 'leadsp', 'crlf', 'utf8', 'pctE9']
-STRUCTS = ['plain', 'dup-path', 'dup-date', 'extra-keys', 'extra-section', 'no-header', 'lower-key', 'path-space-eq', 'date-first', 'no-final-nl', 'bad-date-then-good']
+STRUCTS = ['plain', 'dup-path', 'dup-date', 'extra-keys', 'extra-section', 'no-header', 'lower-key', 'path-space-eq', 'date-first', 'no-final-nl', 'bad-date-then-good', 'no-date', 'empty-date']
 DIRS = ['home-root', 'home-ownvol', 'top', 'alt', 'trash-dir', 'trash-dir-xlink', 'two-trash-dirs']
 DATE = '2021-03-04T05:06:07'
 
@@ -48,7 +48,8 @@ def content(pv, st):
              'extra-section': ['[Trash Info]', P, D, '', '[Other]', 'Path=/other/section', 'DeletionDate=1990-01-01T00:00:00'],
              'no-header': [P, D], 'lower-key': ['[Trash Info]', 'path=%s' % p, D], 'path-space-eq': ['[Trash Info]', 'Path =%s' % p, D],
              'date-first': ['[Trash Info]', D, P], 'no-final-nl': ['[Trash Info]', P, D],
-             'bad-date-then-good': ['[Trash Info]', P, 'DeletionDate=2001-02-03T04:05:06.789', 'DeletionDate=2001-02-03T04:05:06']}[st]
+             'bad-date-then-good': ['[Trash Info]', P, 'DeletionDate=2001-02-03T04:05:06.789', 'DeletionDate=2001-02-03T04:05:06'],
+             'no-date': ['[Trash Info]', P], 'empty-date': ['[Trash Info]', P, 'DeletionDate=']}[st]
     s = '\n'.join(lines)
     return s if st == 'no-final-nl' else s + '\n'
 
